@@ -2,9 +2,11 @@
   Driver domain `au`: auth client request flow (C16).
     au new
     au do host=<h> hint=<k> pw=.. rt=.. at=.. oauth=.. r1=<reply> r2=<reply> fetch=<id|fail>
+    au dob body=<none|replay|oneshot> <same fields>     (C17: with the body each registry send carries)
   reply: final | basic | unknown | bearer:<realmHost>:<key>
 -/
 import OrasModel.Model.Auth
+import OrasModel.Model.AuthBody
 import OrasModel.Driver.Util
 namespace Oras.Driver.Au
 open Oras Oras.Driver
@@ -57,6 +59,25 @@ def step (st : St) (toks : List String) : Option (St × String × String) :=
       let sp := if outs.all (outOk i) && (outs.filter (·.kind == .registry)).length ≤ 3 &&
                    (outs.filter (·.kind == .tokenFetch)).length ≤ 1 then m else "SPEC-VIOLATED"
       some ({ cache := c' }, m, sp)
+  | "dob" :: rest => do
+      let b (k : String) : Option Bool := (kv rest k).map (· == "1")
+      let f ← kv rest "fetch"
+      let body ← match (← kv rest "body") with
+        | "none" => some BodyKind.none | "replay" => some .replay | "oneshot" => some .oneshot | _ => none
+      let i : DoIn := {
+        host := ← (← kv rest "host").toNat?, hintKey := ← (← kv rest "hint").toNat?,
+        cred := ⟨← b "pw", ← b "rt", ← b "at"⟩, forceOAuth2 := ← b "oauth",
+        r1 := ← parseReply (← kv rest "r1"), r2 := ← parseReply (← kv rest "r2"),
+        fetchOk := if f == "fail" then none else f.toNat? }
+      let (outs, c') := authFlowB st.cache i body
+      let showR : Recv → String | .none => "none" | .full => "full" | .truncated => "trunc"
+      let showOB (x : Out × Recv) : String :=
+        if x.1.kind == .tokenFetch then showOut x.1 else showOut x.1 ++ "/" ++ showR x.2
+      let m := " ".intercalate (outs.map showOB)
+      -- the property: the whole body on every send, a one-shot body sent once
+      let regs := outs.filter (·.1.kind == .registry)
+      let ok := outs.all (·.2 != .truncated) && (body != .oneshot || regs.length ≤ 1)
+      some ({ cache := c' }, m, if ok then m else "SPEC-VIOLATED")
   | "scan" :: _ => some (st, "clean", "clean")
   | _ => none
 
